@@ -52,6 +52,25 @@ where
                 }),
                 Expr::Fn(fn_expr) => setup_params(&fn_expr.function).next().and_then(|param| {
                     if let Pat::Assign(AssignPat { right, .. }) = &param.pat {
+                        // (an arrow function takes them from where the call is written)
+                        if extract_type_ann_from_pat(&param.pat).is_some()
+                            && {
+                                let mut finder = FunctionContextFinder {
+                                    all: true,
+                                    found: false,
+                                };
+                                right.visit_with(&mut finder);
+                                finder.found
+                            }
+                        {
+                            HANDLER.with(|handler| {
+                                handler.span_err(
+                                    right.span(),
+                                    "The default value of props can't refer to `this`, `arguments` \
+                                     or `new.target` of the setup function: it is evaluated outside of it.",
+                                );
+                            });
+                        }
                         defaults = Some(&**right);
                     }
                     extract_type_ann_from_pat(&param.pat)
@@ -107,14 +126,14 @@ where
                                         )
                                     })
                                 }
-                                // `this` / `super` of the defaults object mean something else
-                                // (or nothing) in the factory the member would be turned into:
-                                // leave such an object to `mergeDefaults`
+                                // `this` / `super` / `new.target` / `arguments` of a member
+                                // mean something else (or nothing) in the factory the member
+                                // would be turned into: leave such an object to `mergeDefaults`
                                 Prop::Getter(GetterProp {
                                     body: Some(body), ..
-                                }) if uses_this_or_super(body, true) => None,
+                                }) if uses_function_context(body, true) => None,
                                 Prop::Method(MethodProp { function, .. })
-                                    if uses_this_or_super(&**function, false) =>
+                                    if uses_function_context(&**function, false) =>
                                 {
                                     None
                                 }
@@ -1382,39 +1401,72 @@ fn extract_type_ann_from_pat(pat: &Pat) -> Option<&TsTypeAnn> {
 }
 
 
-/// Does the member body refer to `super` (or, when `this_too`, to `this`)? Nested functions and
-/// classes have their own and are not entered; arrows are.
-fn uses_this_or_super<N>(node: &N, this_too: bool) -> bool
+/// Does the node refer to `super` (or, when `all`, to `this`, `new.target` or `arguments` as
+/// well) of the function it is written in? Nested functions have their own and are not entered;
+/// arrows are, and so are the heritage and the computed keys of nested classes and members.
+fn uses_function_context<N>(node: &N, all: bool) -> bool
 where
-    N: VisitWith<ThisSuperFinder>,
+    N: VisitWith<FunctionContextFinder>,
 {
-    let mut finder = ThisSuperFinder {
-        this_too,
-        found: false,
-    };
+    let mut finder = FunctionContextFinder { all, found: false };
     node.visit_children_with(&mut finder);
     finder.found
 }
 
-struct ThisSuperFinder {
-    this_too: bool,
+struct FunctionContextFinder {
+    all: bool,
     found: bool,
 }
 
-impl Visit for ThisSuperFinder {
+impl FunctionContextFinder {
+    fn visit_computed_key(&mut self, key: &PropName) {
+        if let PropName::Computed(key) = key {
+            key.visit_with(self);
+        }
+    }
+}
+
+impl Visit for FunctionContextFinder {
     fn visit_super(&mut self, _: &Super) {
         self.found = true;
     }
     fn visit_this_expr(&mut self, _: &ThisExpr) {
-        if self.this_too {
+        if self.all {
+            self.found = true;
+        }
+    }
+    fn visit_meta_prop_expr(&mut self, meta: &MetaPropExpr) {
+        if self.all && meta.kind == MetaPropKind::NewTarget {
+            self.found = true;
+        }
+    }
+    fn visit_ident(&mut self, ident: &Ident) {
+        if self.all && ident.sym == "arguments" {
             self.found = true;
         }
     }
     fn visit_function(&mut self, _: &Function) {}
-    fn visit_class(&mut self, _: &Class) {}
-    fn visit_getter_prop(&mut self, _: &GetterProp) {}
-    fn visit_setter_prop(&mut self, _: &SetterProp) {}
-    fn visit_method_prop(&mut self, _: &MethodProp) {}
+    fn visit_class(&mut self, class: &Class) {
+        class.super_class.visit_with(self);
+        class.body.iter().for_each(|member| match member {
+            ClassMember::Method(ClassMethod { key, .. })
+            | ClassMember::ClassProp(ClassProp { key, .. }) => self.visit_computed_key(key),
+            ClassMember::AutoAccessor(AutoAccessor {
+                key: Key::Public(key),
+                ..
+            }) => self.visit_computed_key(key),
+            _ => {}
+        });
+    }
+    fn visit_getter_prop(&mut self, getter: &GetterProp) {
+        self.visit_computed_key(&getter.key);
+    }
+    fn visit_setter_prop(&mut self, setter: &SetterProp) {
+        self.visit_computed_key(&setter.key);
+    }
+    fn visit_method_prop(&mut self, method: &MethodProp) {
+        self.visit_computed_key(&method.key);
+    }
 }
 
 /// A key copied from a type declaration is not traversed again: JSX in it would be left behind.
